@@ -1027,7 +1027,9 @@ def real_heads(rep, vectors, stats, scale=1):
                 report(f"{FNAME['td7']}:real:ActorSALE:sign", f"{FNAME['td7']} with the real ActorSALE: d objective / d output-layer weight {d} = {got[d]!r}; specification: sign of sum_i coefficient_i x feature_i = {exp_lo[d]!r}", "ActorSALE", vec)
                 break
         flat_critic = fq(vec["par"]["s1"]) + fq(vec["par"]["s2"]) == 0
-        if flat_critic and any(np.any(v != 0) for v in G.values()):
+        # the action enters the critic twice (directly and through the state-action embedding); with the real actor's
+        # non-dyadic Jacobian the two contributions cancel only up to rounding
+        if flat_critic and any(np.any(np.abs(v) > 1e-6) for v in G.values()):
             report(f"{FNAME['td7']}:real:ActorSALE:support", "the actor receives gradient although the mean critic does not depend on the action", "ActorSALE", vec)
         before = [leafdict(nnx.state(m)) for m in (mods[0], mods[2], actor)]
         td7_update_actor(policy, nnx.Optimizer(actor, _TX["sgd_small"], wrt=nnx.Param), mods[2], obs)
@@ -1039,9 +1041,9 @@ def real_heads(rep, vectors, stats, scale=1):
         dv = np.concatenate([(after[2][kk].astype(np.float64) - before[2][kk]).reshape(-1) for kk in sorted(before[2])])
         gv = np.concatenate([np.asarray(G[kk], dtype=np.float64).reshape(-1) for kk in sorted(before[2])])
         ng, nd = float(np.linalg.norm(gv)), float(np.linalg.norm(dv))
-        if ng > 1e-4 and not (nd > 0 and float(dv @ gv) / (ng * nd) < -0.99):
+        if ng > 1e-3 and not (nd > 0 and float(dv @ gv) / (ng * nd) < -0.99):
             report("td7_update_actor:real:ActorSALE:sign", f"td7_update_actor with the real ActorSALE: the SGD(lr={lr}) step is not along minus the gradient of the objective (cosine {float(dv @ gv) / (ng * nd) if nd else 0.0!r})", "ActorSALE", vec)
-        if ng == 0 and nd != 0:
+        if ng <= 1e-6 and nd > 1e-6:
             report("td7_update_actor:real:ActorSALE:support", "td7_update_actor moved the actor although its gradient is zero", "ActorSALE", vec)
 
     # --- SAC actor and temperature with the tanh-Gaussian head
